@@ -1,7 +1,7 @@
 //@ unit C17_khmer
 //@ props C17 C02
 //@ strength proved-unbounded
-//@ min-verified 2
+//@ min-verified 3
 //@ assume a Vec<char> holds fewer than usize::MAX/2 elements (Rust allocation limit), stated as a precondition
 //@ unverified sort_by_modified_combining_class (std stable sort; out of reach)
 use vstd::prelude::*;
